@@ -33,7 +33,9 @@ func VerifC05Tags() {
 	tag := []string{"!reset", "!override"}[vrtChoice("tag", 2)]
 	attr := []string{"command", "ports", "environment", "labels"}[vrtChoice("attr", 4)]
 	root := map[string]any{"image": "base", "command": []any{"sleep", v}, "ports": []any{"8080:80"},
-		"environment": map[string]any{"FOO": "1", "K": v}, "labels": map[string]any{"l": v}, "user": "keep"}
+		"environment": map[string]any{"FOO": "1", "K": v}, "labels": map[string]any{"l": v}, "user": "keep",
+		// a literal dollar sign (written `$$`) and a variable: each is interpolated once, wherever the base lives
+		"domainname": "d$$HOME-$${X}", "stop_signal": "SIG${SIGNAME:-TERM}"}
 	var val *yaml.Node
 	switch attr {
 	case "command":
@@ -80,6 +82,7 @@ func VerifC05Tags() {
 	_, hasExt := s["extends"]
 	vrtAssert("no-extends-left", !hasExt)
 	vrtAssert("inherited-kept", s["user"] == any("keep") && s["image"] == any("base"))
+	vrtAssert("inherited-value-interpolated-once", s["domainname"] == any("d$HOME-${X}") && s["stop_signal"] == any("SIGTERM"))
 	vrtAssert("own-applied", s["working_dir"] == any("/w"+v))
 	if tag == "!reset" {
 		_, has := s[attr]
